@@ -56,7 +56,8 @@ def _seq(children, allow_leaf=True):
         )
         tail = st.one_of(st.none(), children, children, st.just("LEAF") if allow_leaf else st.none())
     return st.fixed_dictionaries({
-        "u": st.sampled_from(["tuple", "tuple", "list", "iter", "one"]),
+        # "one" (a bare, unsequenced result) only applies to nodes with exactly one child, hence its weight
+        "u": st.sampled_from(["tuple", "list", "iter", "one", "one", "one"]),
         "frames": st.lists(elab.map(lambda e: {"e": e}), min_size=0, max_size=3),
         "none_at": st.sampled_from([None, None, None, 0, 1, 2]),
         "tail": tail,
